@@ -16,6 +16,8 @@ from checks import c17
 NOTES = {
     ("slice", "value"): "slice_as_list_slice emits LIST_SLICE(x, start, start + length); LIST_SLICE's end is inclusive, so length+1 elements "
                         "come back (and a negative start gives []). Patch: end = start + length - 1 (and map negative starts).",
+    ("slice", "value", "negative-start"): "with a negative start LIST_SLICE clamps a start before the first element to the first element "
+                                         "(slice([10], -2, 2) = [10]); Spark returns [] when the start lies outside the array.",
     ("slice", "raises"): "slice_as_list_slice wraps a column NAME passed for start/length into lit('name') (a string literal). "
                          "Patch: use Column.ensure_col for str arguments, lit only for ints.",
     ("element_at", "value"): "element_at_using_brackets subtracts 1 whenever the index expression CONTAINS a number literal, while sqlglot's "
@@ -66,10 +68,33 @@ NOTES = {
 }
 
 
+# findings repaired in /repo: signature -> (commit, what failed, old replay file to take the cases from, tag filter)
+FIXED = {
+    "C17/slice/value/positive-start": ("e7e48fc", "slice on DuckDB returned length+1 elements (LIST_SLICE end is inclusive)", "slice-value", "positive-start"),
+    "C17/slice/raises/column-arguments": ("696553d", "slice read a str start/length as a string literal and raised", "slice-raises", None),
+    "C17/log1p/raises": ("149f416", "log1p('p') added 1 to the string literal 'p' and raised", "log1p-raises", None),
+    "C17/rint/value": ("845ab20", "rint rounded ties away from zero (ROUND) instead of to even", "rint-value", None),
+    "C17/sequence/value/default-step": ("78f58b6", "sequence(start, stop) with start > stop returned [] (default step always 1)", "sequence-value", None),
+    "C17/unix_millis/value": ("7e25340", "unix_millis dropped the milliseconds (whole seconds * 1000)", "unix_millis-value", None),
+    "C17/nanvl/value/null-first-argument": ("7b1cb67", "nanvl(NULL, b) returned b instead of NULL", "nanvl-value", None),
+    "C17/array_position/null-input": ("a27f395", "array_position of a NULL array returned 0 instead of NULL on DuckDB", "array_position-null-input", None),
+    "C17/levenshtein/null-input": ("0dba499", "levenshtein with a threshold returned -1 instead of NULL for NULL input", "levenshtein-null-input", None),
+    "C17/skewness/null-input": ("0980913", "skewness of an all-NULL group returned NaN (sample size from COUNT(*))", "skewness-null-input", None),
+    "C17/to_unix_timestamp/raises": ("8ddbf10", "to_unix_timestamp without a format raised NameError (_BaseSession not imported)", "to_unix_timestamp-raises", None),
+    "C17/element_at/value/index-expression": ("d51b33c", "element_at(a, col + 1) read one position too low on DuckDB", "element_at-value", "index-expression"),
+    "C17/element_at/value/typed-index": ("d51b33c", "element_at(a, col.cast('int')) read one position too high on DuckDB", "element_at-value", "typed-index"),
+    "C17/spark-session/levenshtein": ("0dba499", "levenshtein with a threshold returned -1 for NULL input on a Spark-backed session too", "spark-session-levenshtein", None),
+    "C17/spark-session/overlay": ("dcac97a", "overlay read a str pos/len as a string literal on a Spark-backed session (NULL result)", "spark-session-overlay", None),
+}
+
+
 def main():
+    from checks import c17_cases as cc
+    tags = {c["id"]: c["tag"] for c in cc.all_calls()}
     ctx = core.Ctx("C17stage", "quick", 20261001, "other")
     ctx.prove = lambda *a, **k: True
     ctx.cases = lambda *a, **k: []
+    ctx.coq_eval = lambda *a, **k: ""
     c17.run(ctx)
     devs = list(ctx.deviations)
     if len(sys.argv) > 1:
@@ -79,23 +104,51 @@ def main():
             if not any(d["signature"] == sig for d in devs):
                 devs.append({"signature": sig, "what": f"through sqlframe.spark: {b['call']}: " +
                              (b.get("error") or f"recorded PySpark {b.get('recorded')!r}, sqlframe.spark {b.get('now')!r}"), "replay": b})
+    fdir = os.path.join(core.VERIF, "findings")
+    old = {}
+    for fn in os.listdir(fdir):
+        if fn.startswith("C17-") and fn.endswith(".json"):
+            old[fn[4:-5]] = json.load(open(os.path.join(fdir, fn)))
+    for fn in list(os.listdir(fdir)):
+        if fn.startswith("C17-") and fn.endswith(".json"):
+            os.remove(os.path.join(fdir, fn))
     findings = []
+
+    def fname(sig):
+        return "C17-" + re.sub(r"[^A-Za-z0-9_.-]", "_", "-".join(sig.split("/")[1:])) + ".json"
+
     for d in devs:
-        parts = d["signature"].split("@")[0].split("/")
-        key = (parts[1], parts[2])
-        note = NOTES.get(key, "")
-        name = re.sub(r"[^A-Za-z0-9_.-]", "_", "-".join(parts[1:]))
-        rp = os.path.join("findings", f"C17-{name}.json")
+        assert d["signature"] not in FIXED, ("listed as fixed but still reproduces", d["signature"])
+        parts = d["signature"].split("/")
+        note = NOTES.get(tuple(parts[1:4])) or NOTES.get((parts[1], parts[2]), "")
+        rp = os.path.join("findings", fname(d["signature"]))
         with open(os.path.join(core.VERIF, rp), "w") as f:
             json.dump({"property": "C17", "signature": d["signature"], "what": d["what"], "cause_and_patch": note,
                        "judged_by": "value recorded from PySpark 3.5.9 (oracle/c17_pyspark.jsonl)", "replay": d["replay"]},
                       f, indent=1, default=str)
         findings.append({"property": "C17", "status": "known", "signature": d["signature"],
                          "what": (d["what"] + (" -- " + note if note else ""))[:600], "replay": rp})
-    with open(os.path.join(core.VERIF, "findings", "C17.known.json"), "w") as f:
-        json.dump({"comment": "staged known findings of C17 (genuine deviations of sqlframe-on-DuckDB from PySpark 3.5.9, each with a replay)",
+    for sig, (commit, what, oldname, tag) in FIXED.items():
+        o = old.get(oldname) or old.get(fname(sig)[4:-5])
+        replay = dict((o or {}).get("replay") or {})
+        if tag and "cases" in replay:
+            replay["cases"] = [c for c in replay["cases"] if tags.get((c.get("call_spec") or {}).get("id")) == tag]
+        rp = os.path.join("findings", fname(sig))
+        parts = sig.split("/")
+        note = NOTES.get(tuple(parts[1:4])) or NOTES.get((parts[1], parts[2]), "")
+        with open(os.path.join(core.VERIF, rp), "w") as f:
+            json.dump({"property": "C17", "signature": sig, "status": "fixed", "commit": commit, "what": what, "cause_and_patch": note,
+                       "judged_by": "value recorded from PySpark 3.5.9 (oracle/c17_pyspark.jsonl)",
+                       "before_the_fix": "the cases below failed as shown (sqlframe value before the fix; the spark value is what the fixed code returns)",
+                       "replay": replay}, f, indent=1, default=str)
+        findings.append({"property": "C17", "status": "fixed", "signature": sig, "commit": commit, "what": what,
+                         "line": f"fixed: property=C17 {commit} {what}", "replay": rp})
+    with open(os.path.join(fdir, "C17.known.json"), "w") as f:
+        json.dump({"comment": "staged findings of C17 (genuine deviations of sqlframe-on-DuckDB from PySpark 3.5.9, each with a replay). "
+                              "status=known: still reproduces, printed as KNOWN-FINDING. status=fixed: repaired by the named commit in /repo; "
+                              "suppresses nothing (the check reports it as a VIOLATION if it returns).",
                    "findings": findings}, f, indent=1)
-    print("staged", len(findings), "findings;", sum(1 for x in findings if not NOTES.get(tuple(x["signature"].split("@")[0].split("/")[1:3]))), "without a note")
+    print("staged", sum(1 for x in findings if x["status"] == "known"), "known,", sum(1 for x in findings if x["status"] == "fixed"), "fixed")
     import shutil
     shutil.rmtree(ctx.build, ignore_errors=True)
 
